@@ -249,7 +249,7 @@ func dyadicSimplex8(r *Rng, k int, zeros bool) []float64 {
 	return f
 }
 
-func genHMM(r *Rng, small bool) *Case2 {
+func genHMM(r *Rng, small bool, long bool) *Case2 {
 	c := &Case2{Kind: "hmm", Exact: small}
 	c.M = r.Pick([]int{1, 6, 3}) + 1
 	maxLen, maxSeq := 6, 3
@@ -288,6 +288,9 @@ func genHMM(r *Rng, small bool) *Case2 {
 		c.Th0 = append(c.Th0, fss(dyadicSimplex8(r, c.J, zeros && r.Intn(2) == 0)))
 	}
 	c.MaxSteps = []int{1, 2, 2, 3, 4, -1}[r.Intn(6)]
+	if !long {
+		c.MaxSteps = []int{1, 2, 2, 3}[r.Intn(4)] // every recorded iteration costs M + M*M + C*J certified exp values
+	}
 	if small {
 		c.MaxSteps = r.Range(1, 2)
 	}
@@ -329,7 +332,7 @@ func round2(o Opts) {
 		}
 	}
 	for i := 0; i < o.N; i++ {
-		cs = append(cs, genHMM(r, i < o.N/5))
+		cs = append(cs, genHMM(r, i < o.N/4, o.Tier != "quick"))
 	}
 	hist := map[string]int{}
 	nontriv := map[string]bool{}
@@ -530,7 +533,7 @@ func huntHMM(o Opts, handed []*Case2, res map[string]interface{}) {
 	}
 	r := NewRng(o.Seed + 424242)
 	for i := 0; i < o.N/3; i++ {
-		if try(genHMM(r, false)) {
+		if try(genHMM(r, false, true)) {
 			return
 		}
 	}
